@@ -26,6 +26,12 @@ func (core *JApiCore) addMacro(d *directive.Directive) *jerr.JApiError {
 		return d.KeywordError(fmt.Sprintf("%s (%s)", jerr.DirectiveNotAllowed, directive.Macro.String()))
 	}
 
+	// A banned directive is not allowed in the body of a macro either, whether
+	// the macro is pasted anywhere or not.
+	if je := core.findBannedDirective(d.Children); je != nil {
+		return je
+	}
+
 	if d.Annotation != "" {
 		return d.KeywordError(jerr.AnnotationIsForbiddenForTheDirective)
 	}
@@ -45,5 +51,20 @@ func (core *JApiCore) addMacro(d *directive.Directive) *jerr.JApiError {
 
 	core.macro[name] = d
 
+	return nil
+}
+
+func (core *JApiCore) findBannedDirective(dd []*directive.Directive) *jerr.JApiError {
+	if len(core.bannedDirectives) == 0 {
+		return nil
+	}
+	for _, d := range dd {
+		if _, ok := core.bannedDirectives[d.Type()]; ok {
+			return d.KeywordError(fmt.Sprintf("%s (%s)", jerr.DirectiveNotAllowed, d.Type().String()))
+		}
+		if je := core.findBannedDirective(d.Children); je != nil {
+			return je
+		}
+	}
 	return nil
 }
